@@ -465,7 +465,8 @@ def run(ctx) -> None:
     ctx.rule("C09.moma", "formulation: linear MOMA poses the documented problem", floor=6)
     ctx.rule("C09.room", "formulation: ROOM (MILP and linear) poses the documented problem", floor=6)
     ctx.rule("C09.abs", "formulation: add_absolute_expression components", floor=1)
-    check_pfba(ctx)
-    check_moma(ctx)
-    check_room(ctx)
-    check_abs(ctx)
+    for chk in (check_pfba, check_moma, check_room, check_abs):
+        try:
+            chk(ctx)
+        except AnalysisError as exc:
+            ctx.defer(str(exc))
